@@ -777,7 +777,8 @@ fn z_token(c: &FrameCase, body: &Bytes) -> String {
 }
 
 pub fn parse_frame_case(w: &[&str]) -> Option<(FrameCase, String)> {
-    if w.len() != 9 {
+    // the optional 10th word is the class table of non-ASCII scalars (a parameter of the model only)
+    if w.len() != 9 && w.len() != 10 {
         return None;
     }
     let rl: Option<i32> = if w[1] == "-" { None } else { Some(w[1].parse().ok()?) };
@@ -873,6 +874,11 @@ pub fn run(case: &str, ctx: &mut Ctx) -> String {
             let o = guarded(move || (crate::c08gen::run_prim(&name, &bs), vec![]));
             finish(o, n, "-", ctx)
         }
+        // `a f <…9 words…>`: developer tool — prints the frame case with its class table appended (for corpus files)
+        Some("a") if w.len() == 10 => match unhex(w[9]) {
+            Some(bs) => format!("{} {}", w[1..10].join(" "), crate::c08gen::uni_table(&bs)),
+            None => "bad-case".into(),
+        },
         // `e <cap> <frame hex>`: the error tail of the row iterator (items yielded after the first failing row)
         Some("e") if w.len() == 3 => {
             let (Ok(cap), Some(bs)) = (w[1].parse::<usize>(), unhex(w[2])) else { return "bad-case".into() };
